@@ -10,7 +10,7 @@ PROP = {
             "BMP / astral / combining Unicode, and tricky fragments (%20, %2F, %zz, '...', 'C:', control characters); per path the canonical URI plus up to 5 alternative "
             "encodings (hex lower / upper case, everything escaped, unreserved characters escaped at random, mixed-case hex); distinct = FNV of the path; "
             "non-trivial = the path contains a non-alphanumeric character and >= 3 alternative encodings were checked",
-    "min_nontrivial": {"quick": 200000, "thorough": 8000000},
+    "min_nontrivial": {"quick": 200000, "thorough": 5000000},
     "max_secs": {"quick": 60, "thorough": 900},
     "require_clauses": ["a:roundtrip", "b:alternative-encodings-decode", "c:same-file-id"],
     "assumptions": COMMON_ASSUME + [
@@ -18,6 +18,6 @@ PROP = {
         "paths are valid UTF-8 (the property quantifies over characters); non-UTF-8 paths are observed and counted, not judged",
         "a path segment made only of dots is never percent-encoded in an alternative (URL parsers read %2E%2E as '..')",
     ],
-    "level_text": "Each generated path is converted to a URI and back, and up to five re-encodings of that URI must map to the same path and FileId. ~320k paths (quick).",
+    "level_text": "Each generated path is converted to a URI and back, and up to five re-encodings of that URI must map to the same path and FileId. 16 x 40 000 paths (quick), 16 x 1 000 000 (thorough).",
     "level_note": "Host-bearing file URIs (file://localhost/...) and Windows drive letters are out of scope.",
 }
